@@ -479,6 +479,9 @@ def config_for(i, tier='quick'):
     only = os.environ.get('VERIF_C16_ONLY')      # developer aid: every run in one mode
     if only == 'keyrace':
         return {'mode': 'keyrace', 'memo': True, 'clock_jumps': False}
+    if only == 'excpoint':
+        return {'mode': 'excpoint', 'memo': True, 'clock_jumps': False,
+                'crashpoints': 'all' if tier == 'thorough' else 'sample'}
     memo = (i % 11) != 10
     jumps = (i % 3) == 1
     if i % 40 in (30, 10):
@@ -764,7 +767,10 @@ def do_op(ctx, op, localfile):
     elif k in ('db2_store', 'db2_retrieve'):
         # a second, bare database directory next to the context, not created in advance: every
         # operation constructs its own handle (first use of a fresh database by several threads)
-        db2 = type(ctx.model_database)(os.path.join(str(ctx.path.parent), 'db2'))
+        db2path = os.path.join(str(ctx.path.parent), 'db2')
+        if op.get('rel'):
+            db2path = os.path.relpath(db2path, os.getcwd())     # the same database, spelled relatively
+        db2 = type(ctx.model_database)(db2path)
         if k == 'db2_store':
             db2.store_model_entry(e['me'])
         else:
@@ -1416,9 +1422,12 @@ def check_log(ctx, ref, infl, V, where, ordered=True):
 class OneShotFault:
     """Raise one OSError at file-system operation number k (the process survives)."""
 
-    def __init__(self, k, short=False):
+    OTHER = (ValueError, TypeError, ValueError, TypeError, RuntimeError, KeyError, MemoryError)
+
+    def __init__(self, k, short=False, other=None):
         self.k = k
         self.short = short
+        self.other = other          # None, or an exception class that is not an OSError
         self.fired = None
         self.fired_during = None
         self.enospc = False
@@ -1431,6 +1440,8 @@ class OneShotFault:
         if idx != self.k:
             return None
         self.fired = (kind, fs.rel(path))
+        if self.other is not None:
+            return ('raise', self.other)
         if kind == 'write':
             if self.short and nbytes > 1:
                 self.enospc = True
@@ -1517,7 +1528,7 @@ def run_excpoints(cfg, tape, want_trace=False):
     points = []
     if base_run is not None and n_ops > k0:
         cand = list(range(k0, n_ops))
-        npts = len(cand) if cfg.get('crashpoints') == 'all' else min(6, len(cand))
+        npts = len(cand) if cfg.get('crashpoints') == 'all' else min(7, len(cand))
         if cfg.get('crashpoints') != 'all':
             # two of the sampled points land on operations on the files all entries share (the
             # annotations file, the log, dataset copies and their index)
@@ -1530,11 +1541,23 @@ def run_excpoints(cfg, tape, want_trace=False):
                 if k_ in cand:
                     cand.remove(k_)
                     points.append(k_)
+            # ... and one on the files of an entry itself (model file, results, marker)
+            entry = [i for (i, _p, kd, rp) in fs0.op_log
+                     if k0 <= i < n_ops and i in cand and '/.modeldb/' in rp and '/.datasets/' not in rp and
+                     kd != 'mkdir']
+            for _ in range(min(2, len(entry))):
+                k_ = entry.pop(tape.draw(len(entry), 'exc.entry'))
+                cand.remove(k_)
+                points.append(k_)
         for _ in range(max(0, npts - len(points))):
             points.append(cand.pop(tape.draw(len(cand), 'exc.point')))
         points.sort()
     for k in points:
-        fault = OneShotFault(k, short=bool(tape.draw(2, 'exc.short')))
+        # one injected exception in three is not an OSError ("exception ... between any two
+        # file-system operations": an encoder, a validation, the allocator)
+        other = OneShotFault.OTHER[tape.draw(len(OneShotFault.OTHER), 'exc.class')] \
+            if tape.draw(2, 'exc.other') == 1 else None
+        fault = OneShotFault(k, short=bool(tape.draw(2, 'exc.short')), other=other)
         out = execute(fault)
         if out is None:
             break
@@ -1543,7 +1566,7 @@ def run_excpoints(cfg, tape, want_trace=False):
         if fault.fired is None:
             continue
         states.add(int(simfs.tree_digest(root)[:15], 16))
-        where = f'OSError injected at fs-op {k} [{fault.fired[0]} {fault.fired[1]}]; failed: ' \
+        where = f'{other.__name__ if other else "OSError"} injected at fs-op {k} [{fault.fired[0]} {fault.fired[1]}]; failed: ' \
                 f'{[fmt_op(o) for o in failed]}'
         try:
             check_state(root, ref_k, list(failed), V, where, wl['models'])
